@@ -210,14 +210,18 @@ def type_names(spec: Spec) -> List[str]:
 
 def op_cycle(draw: Draw, spec: Spec) -> Result:
     k = draw(st.integers(1, 4))
-    x = pick(draw, spec.classes)
+    if draw(st.booleans()):
+        # start low in the hierarchy so that the longer cycles have room
+        x = pick(draw, sorted(spec.classes, key=lambda c: -len(spec.ancestors(c.name)))[:2])
+    else:
+        x = pick(draw, spec.classes)
     top = x
     n = 1
     while n < k and top.bases:
         top = spec.cls(pick(draw, top.bases))
         n += 1
     text = mmgen.render(spec)
-    return add_base(text, top.name, x.name), f"cycle of length {n}: {top.name} inherits from {x.name}"
+    return add_base(text, top.name, x.name), f"{top.name} inherits from {x.name} [length-{n}]"
 
 
 def op_base_missing(draw: Draw, spec: Spec) -> Result:
@@ -370,11 +374,18 @@ def op_prop_redeclared(draw: Draw, spec: Spec) -> Result:
                 cands.append((d, a, p))
     if not cands:
         return None
-    d, a, p = pick(draw, cands)
+
+    def depth_of(d: Any, a: str) -> str:
+        if sum(1 for b in d.bases if a == b or a in spec.ancestors(b)) >= 2:
+            return "diamond"
+        return "parent" if a in d.bases else "deeper"
+
+    # any depth: first the kind of relation (uniformly among those the spec offers), then the triple
+    kinds = sorted({depth_of(d, a) for d, a, _ in cands})
+    kind = pick(draw, kinds)
+    d, a, p = pick(draw, [c for c in cands if depth_of(c[0], c[1]) == kind])
     text = insert_before_init(mmgen.render(spec), d.name, [f"    {p.name}: {p.type.render()}"])
-    depth = "diamond" if sum(1 for b in d.bases if a == b or a in spec.ancestors(b)) >= 2 else (
-        "parent" if a in d.bases else "deeper")
-    return text, f"{d.name} re-declares {p.name} of its ancestor {a} ({depth})"
+    return text, f"{d.name} re-declares {p.name} of its ancestor {a} [{kind}]"
 
 
 def op_method_overridden(draw: Draw, spec: Spec) -> Result:
@@ -523,7 +534,8 @@ def op_inv_dup_inherited(draw: Draw, spec: Spec) -> Result:
     d, a = pick(draw, cands)
     src = pick(draw, a.invs)
     d.invs.insert(draw(st.integers(0, len(d.invs))), mmgen.Inv(src.body, src.desc, dict(src.tags)))
-    return mmgen.render(spec), f"{d.name} and its ancestor {a.name}: invariants described {src.desc!r}"
+    kind = "class" if isinstance(d, mmgen.Cls) else "constrained-primitive"
+    return mmgen.render(spec), f"{d.name} and its ancestor {a.name}: invariants described {src.desc!r} [{kind}]"
 
 
 def _doc_op(role: str) -> Callable[[Draw, Spec], Result]:
@@ -559,7 +571,7 @@ def _doc_op(role: str) -> Callable[[Draw, Spec], Result]:
             pick(draw, spec.consts).doc = doc
         else:
             pick(draw, spec.enums).doc = doc
-        return mmgen.render(spec), f"{ref} in the description of a {where}"
+        return mmgen.render(spec), f"{ref} in the description [{where}]"
 
     return op
 
